@@ -281,3 +281,6 @@ func JSON(v interface{}) string {
 	b, _ := json.Marshal(v)
 	return string(b)
 }
+
+// NewRand returns a deterministic generator for a derived seed.
+func NewRand(seed int64) *rand.Rand { return rand.New(rand.NewSource(seed)) }
